@@ -7,6 +7,8 @@ import (
 	"io"
 	"io/ioutil"
 	"math/rand"
+	"runtime"
+	"runtime/debug"
 	"sort"
 	"sync"
 
@@ -252,8 +254,8 @@ type plan struct {
 
 func mkPlan(c *vc.Ctx) plan {
 	return plan{
-		nMsgStreams: c.Pick(160, 3000), nV2Streams: c.Pick(240, 5000), nV2Long: c.Pick(6, 120), nEdge: c.Pick(12, 120),
-		capSteps: c.Pick(600, 4000), capRuns: c.Pick(4, 48), corruptShard: 8,
+		nMsgStreams: c.Pick(120, 4000), nV2Streams: c.Pick(200, 6000), nV2Long: c.Pick(3, 100), nEdge: c.Pick(12, 160),
+		capSteps: c.Pick(600, 4000), capRuns: c.Pick(4, 64), corruptShard: 8,
 	}
 }
 
@@ -268,7 +270,7 @@ func genStream(seed int64, kind string, idx int) (*Stream, error) {
 	switch kind {
 	case "msg":
 		r := streamRand(seed, 1, idx)
-		n := 1 + r.Intn(14)
+		n := 1 + r.Intn(7)
 		var msgs []raftpb.Message
 		ntypes := len(raftpb.MessageType_name)
 		for i := 0; i < n; i++ {
@@ -413,6 +415,11 @@ func runC16(c *vc.Ctx) error {
 		return replayC16(c)
 	}
 	pl := mkPlan(c)
+	// every truncation trial needs a fresh decoder, which allocates a 1 MiB
+	// buffer: keep the collector from running every few trials
+	defer debug.SetGCPercent(debug.SetGCPercent(1000))
+	ballast := make([]byte, 96<<20)
+	defer runtime.KeepAlive(ballast)
 	c.Ev.Rule = "message sequences (function of seed and stream index) are written by the real stream encoders and read back by the real decoders: (a) 'message' codec: every message type with arbitrary field values; (b) 'msgappv2' codec: MsgApp + link heartbeats of 1-4 interleaved raft groups between one node pair, as raft.send/peer.pick produce them, with runs of continuing appends, term changes, index gaps, empty appends, entries of 0/1 bytes and frames at 1 MiB-1/1 MiB/1 MiB+1; (c) sequences captured from a real 3-node, multi-group raft run. Oracle: field-wise equality immediately and again after the whole stream; every truncation offset (streams <= 64 KiB, sampled above) yields the sent prefix then an error; single-byte corruption yields an error or identical messages. " +
 		"A stream is non-trivial when it holds >= 2 messages; distinct per (codec, frame-type sequence, group interleaving pattern)."
 	c.Ev.Assume("msgappv2 is checked only inside the domain the transport gives it (MsgApp and link heartbeats, From/To equal to the replica ids of FromGroup/ToGroup, FromGroup.NodeId = sending node, ToGroup.NodeId = receiving node, group name a function of the group identity, Term >= 1, LogTerm <= Term, entries consecutive from Index+1)")
@@ -555,7 +562,7 @@ func runC16(c *vc.Ctx) error {
 			account(s)
 			r := streamRand(c.Seed, 10, run)
 			// the live comparison was done while the cluster ran; here: re-decode and all truncation points of a prefix
-			t := prefixStream(s, 48<<10)
+			t := prefixStream(s, c.Pick(12, 60)<<10)
 			p, clause, done, all := checkStream(t, r, true)
 			c.Ev.Eval()
 			mu.Lock()
